@@ -26,16 +26,24 @@ RULE = (
 )
 ASSUMPTIONS = [
     "SQLite only (file database, non-legacy transaction mode); PostgreSQL/MariaDB are not live in this sandbox",
-    "the reference model of flush/cascade/rollback semantics in checks/_orm_flush.py is trusted; rows are read with plain sqlite3 calls",
+    "the reference model of flush/cascade/rollback semantics in checks/_orm_flush.py is trusted; rows are read with plain sqlite3 calls and "
+    "compared as a graph keyed by an immutable uid column (autoincrement keys never enter the oracle)",
     "programs never assign foreign-key column attributes directly (documented as not synchronising with relationships)",
-    "an out-of-session object that initiates an association with an in-session object is add()ed first (backref cascade was removed in 2.0)",
-    "c.parent is read before re-parenting when only the old parent's collection is loaded (otherwise that collection is documented to go stale)",
+    "an out-of-session object that initiates an association with an in-session object is add()ed first (backref cascade was removed in 2.0); "
+    "session.add() is only applied to transient/detached objects",
+    "the old parent is read before re-parenting a persistent child (otherwise the old collection is documented to go stale and the unit of "
+    "work cannot order deletes against the old parent); without a backref a move is remove-from-old + append-to-new with the target loaded first",
     "delete() is generated only where the application has made it well-defined: children persistent and already flushed under that parent, "
-    "no many-to-one-only / one-directional many-to-many referrers, favourite cleared first; new natural keys are always fresh names",
-    "expunge only of objects with no relationships (flushing first); detached objects take no part in relationship operations; objects "
-    "expunged by a rollback or as pending orphans are discarded; expire is preceded by a flush (expire discards pending changes)",
-    "NOT NULL FK configs run with autoflush off and give every parentless child a parent (or discard it) before each flush",
-    "known finding excluded by construction: under delete-orphan a *pending* child moved to another parent in one step is expunged",
+    "associations of the deleted row already flushed, no many-to-one-only / one-directional many-to-many referrers, favourite cleared first "
+    "unless its holder is deleted too, no unflushed key switch on the row; an object appended to a collection in the same flush is not "
+    "deleted (documented-by-code: register_object(cancel_delete=True)); new natural keys are always fresh names",
+    "delete-orphan: orphaning is generated for flushed associations only; a transient child removed from a transient parent is dropped",
+    "expunge only of objects with no relationships whose row the open transaction did not change (flushing first); detached objects take no "
+    "part in relationship operations; objects expunged by a rollback or as pending orphans are discarded; expire is preceded by a flush",
+    "NOT NULL FK configs run with autoflush off and give every parentless child a parent (or discard it) before each flush; with autoflush "
+    "off a collection is loaded before the owner's natural key is switched",
+    "known findings excluded by construction (pinned replays in findings/C30): pending child moved between parents under delete-orphan; "
+    "delete cascade of an orphan lost when the former parent is deleted too; CircularDependencyError on adjacency-list re-arrangement",
 ]
 
 C30_CODES = [
@@ -88,5 +96,5 @@ def _note(case, ctx, it):
 
 def subs(tier):
     return [
-        Generated("histories", check, strategy=_cases(), quick=640, thorough=60000),
+        Generated("histories", check, strategy=_cases(), quick=640, thorough=60000, budget_s_quick=90.0),
     ]
